@@ -130,12 +130,17 @@ pub fn parallel_parse(
             });
             match result {
                 Ok(Some(parsed_data)) => {
-                    tx.send(Ok(parsed_data)).unwrap();
-                    WalkState::Continue
+                    // The collector stops listening after the first error it sees; a result
+                    // that arrives later has nowhere to go and the walk is over.
+                    match tx.send(Ok(parsed_data)) {
+                        Ok(()) => WalkState::Continue,
+                        Err(_) => WalkState::Quit,
+                    }
                 }
                 Ok(None) => WalkState::Continue,
                 Err(err) => {
-                    tx.send(Err(err)).unwrap();
+                    // If the collector is already gone it has reported an earlier error.
+                    let _ = tx.send(Err(err));
                     WalkState::Quit
                 }
             }
